@@ -239,11 +239,12 @@ theorem C12_unique_message_counterexample :
       j5Accepts ⟨fun _ _ => false⟩ false p (.list [.msg]) = true := by
   refine ⟨_, rfl, ?_, ?_⟩ <;> decide
 
-/-- Open finding `optional-field-without-presence`: `field s ? string { rules.minLength = 1 }`
-declares a field whose absence is distinguishable and allowed, but the compiled field has no
-presence (proto3_optional without a synthetic oneof), so the only message that can express
-"unset" carries the empty string, which the compiled constraint rejects. `C12_equiv` speaks
-about the compiled type as it is: for such fields it treats "unset" as the zero value. -/
+/-- Fixed finding `optional-field-without-presence` (c0f36ba). Before the repair
+`field s ? string { rules.minLength = 1 }` compiled to a field with `proto3_optional` but without
+the synthetic oneof, hence without presence (`optPres = false`): the declaration makes absence
+distinguishable and allowed, but the only message that could express "unset" carried the empty
+string, which the compiled constraint rejects. This is that state of affairs, kept as the boundary
+of the presence parameter; `C12_presence_as_declared` / `C12_equiv_repaired` are the repaired one. -/
 theorem C12_optional_presence_counterexample :
     let p : Property := { name := "s", number := 2, explicitlyOptional := true,
                           schema := .single (.string none (some { minLength := some 1 }) none) }
@@ -251,6 +252,30 @@ theorem C12_optional_presence_counterexample :
     j5Accepts ⟨fun _ _ => false⟩ false p .absent = true ∧
     ∃ c, compileRules p = .ok c ∧
       pvField ⟨fun _ _ => false⟩ [] c (p.hasPresence false) (.single (.str [])) = .reject := by
+  refine ⟨by decide, by decide, by decide, _, rfl, by decide⟩
+
+/-- with the synthetic oneof in place (`optPres = true`, the fact the harness measures on the
+compiler as repaired by c0f36ba) the compiled field has presence exactly where the declaration
+says so: message kinds and `? type` -/
+theorem C12_presence_as_declared (p : Property) : p.hasPresence true = p.declaredPresence := by
+  obtain ⟨name, num, req, opt, desc, schema⟩ := p
+  cases schema <;> simp [Property.hasPresence, Property.declaredPresence]
+
+/-- **C12 for the compiler as it is now**: presence as declared, an unset `? type` field is
+accepted whatever its rules, a set one is judged by the rules. -/
+theorem C12_equiv_repaired (M : Matcher) (hM : MatcherOK M) (p : Property) (v : FieldVal)
+    (hwf : WFRules p = true) (hty : WellTyped true p v = true) :
+    ∃ c, compileRules p = .ok c ∧
+      pvField M (definedOf p) c p.declaredPresence v = ofBool (j5Accepts M true p v) := by
+  have h := C12_equiv M hM true p v hwf hty
+  rwa [C12_presence_as_declared] at h
+
+/-- the witness of the fixed finding, now accepted: unset `s ? string { minLength = 1 }` -/
+example :
+    let p : Property := { name := "s", number := 2, explicitlyOptional := true,
+                          schema := .single (.string none (some { minLength := some 1 }) none) }
+    WFRules p = true ∧ WellTyped true p .absent = true ∧ j5Accepts ⟨fun _ _ => false⟩ true p .absent = true ∧
+    ∃ c, compileRules p = .ok c ∧ pvField ⟨fun _ _ => false⟩ [] c p.declaredPresence .absent = .accept := by
   refine ⟨by decide, by decide, by decide, _, rfl, by decide⟩
 
 /-! ## the matcher used by the correspondence runs satisfies the hypothesis -/
